@@ -51,6 +51,21 @@ def structural_variants():
                 del d1["jsonrpc"]
                 out.append("{" + ", ".join('"%s": %s' % kv for kv in d1.items()) + "}")
     out.append("[" + ", ".join(out[20:26]) + "]")
+    # batch entries of every JSON type, including arrays that themselves hold requests
+    call = '{"jsonrpc": "2.0", "method": "add", "params": [1, 2], "id": 1}'
+    for val in JSON_VALUES + ["[%s]" % call, "[[%s]]" % call, "[[]]", "[[1]]"]:
+        out.append("[%s]" % val)
+        out.append("[%s, %s]" % (call, val))
+    # __jsonclass__ members: malformed descriptors of every JSON type and length, unresolvable / invalid names,
+    # and side-effect-free classes (the domain of the property when class translation is on)
+    descs = ["null", "true", "5", '"x"', "[]", "{}", '["nope.Missing"]', '["nope.Missing", []]', '["", []]', '["bad name!", []]',
+             '[7, []]', '["decimal.Decimal", ["1.5"]]', '["decimal.Decimal"]', '["decimal.Decimal", [], {}, 3]', '["collections.OrderedDict", []]',
+             '["fractions.Fraction", [1, 3]]', '[["a"], []]', '["os.", []]', '[".os", []]', '["a..b", []]']
+    for d in descs:
+        out.append('{"jsonrpc": "2.0", "method": "echo", "params": [{"__jsonclass__": %s}], "id": 1}' % d)
+        out.append('{"jsonrpc": "2.0", "method": "echo", "params": [1], "id": {"__jsonclass__": %s}}' % d)
+    out.append('{"__jsonclass__": ["decimal.Decimal", ["2"]]}')
+    out.append('[{"__jsonclass__": []}]')
     return out
 
 
